@@ -268,7 +268,7 @@ def check_opaque_writers(ctx, fx):
     for f in fx.functions:
         if not C.first_party(f):
             continue
-        live = None
+        live = inits = None
         for b in f["blocks"]:
             for st in b["stmts"]:
                 for nd in X.stmt_nodes(st, local=True):
@@ -289,8 +289,11 @@ def check_opaque_writers(ctx, fx):
                     if b["id"] not in live:
                         continue          # discarded by `if constexpr` / behind a return in this instantiation
                     n += 1
-                    v = X.const_val(nd["rhs"])
-                    r = X.strip(nd["rhs"])
+                    if inits is None:
+                        inits = C.single_inits(f)
+                    rhs = C.resolve_flag(nd["rhs"], inits)     # `const bool x = base->has_opaque_path; … = x`
+                    v = X.const_val(rhs)
+                    r = X.strip(rhs)
                     where = st.get("loc", f["loc"]).replace("/repo/", "")
                     key = "%s: %s" % (f["qname"].split("::")[-1] + ("<%s>" % statemachine.inst_tag(f) if f["key"] in regions else ""),
                                       X.show(nd)[:70])
